@@ -1217,8 +1217,17 @@ func (h *c14h) sequences() {
 // cannot see a seen-set that is bounded, rotated or reset once it has grown.
 func (h *c14h) longSequences() {
 	h.cur = "sequences/long: n distinct ids x 3 passes through UniqueLogger"
-	for _, n := range []int{300, 1500, 5000} {
+	// 262144 = every address of a /14 (1048576 = a /12 in the thorough tier): a seen-set that keeps a
+	// digest of the id instead of the id loses hosts only at such sizes
+	ns := []int{300, 1500, 5000, 1 << 18}
+	if h.c.Thorough() {
+		ns = append(ns, 1<<20)
+	}
+	for _, n := range ns {
 		for _, capa := range []int{0, 1000} {
+			if n > 5000 && capa == 0 {
+				continue
+			}
 			if !h.next() {
 				continue
 			}
